@@ -270,11 +270,17 @@ func genC04(seed int64, tier string, out *Writer) {
 		}
 		pos := r.Intn(len(t))
 		var m string
-		switch r.Intn(3) {
+		switch r.Intn(7) {
 		case 0: // delete one byte
 			m = t[:pos] + t[pos+1:]
 		case 1: // duplicate one byte
 			m = t[:pos+1] + t[pos:]
+		case 2: // cut the field short (end of input inside any construct)
+			m = t[:pos+1]
+		case 3: // a byte outside ASCII, or NUL
+			m = t[:pos] + string([]byte{[]byte{0x00, 0x80, 0xa9, 0xc3, 0xff}[r.Intn(5)]}) + t[pos+1:]
+		case 4: // a two-byte UTF-8 character inserted
+			m = t[:pos] + "\xc3\xa9" + t[pos:]
 		default: // substitute by a delimiter
 			m = t[:pos] + string(delims[r.Intn(len(delims))]) + t[pos+1:]
 		}
@@ -319,10 +325,23 @@ func genC05(seed int64, tier string, out *Writer) {
 		n = 80000
 	}
 	alpha := "abz019 ,|()[]<>:!${}=~+.-\t\n"
+	high := []string{"\xc3\xa9", "\xff", "\x80", "\xe2\x82\xac", "\x00"}
 	for i := 0; i < n; i++ {
-		switch r.Intn(3) {
+		switch r.Intn(4) {
 		case 0: // raw bytes
 			out.Put(J{"k": "dep_rt", "text": B(randBytes(r, r.Intn(32), alpha))})
+		case 1: // bytes outside ASCII (and NUL) inside names, versions, architecture and profile names
+			t := base[r.Intn(len(base))]
+			if len(t) > 0 {
+				pos := r.Intn(len(t))
+				h := high[r.Intn(len(high))]
+				if r.Intn(2) == 0 {
+					t = t[:pos] + h + t[pos:]
+				} else {
+					t = t[:pos] + h + t[pos+1:]
+				}
+			}
+			out.Put(J{"k": "dep_rt", "text": B(t)})
 		default: // mutated valid fields
 			t := base[r.Intn(len(base))]
 			for k := r.Intn(3); k > 0 && len(t) > 0; k-- {
